@@ -38,6 +38,7 @@ type World struct {
 	recvInv   map[string][]*Clause
 	commonPost map[string][]*Clause
 	typeInv   map[string][]*Clause
+	knownNames map[string]bool // every obligation name recorded in the ledgers (proved or undecided); nil: not loaded
 	replaySolver string
 }
 
